@@ -310,6 +310,11 @@ func (h *H) Pause(d time.Duration) { time.Sleep(time.Duration(slowFactor()) * d)
 // are replayed by pausing the goroutine there.
 func (h *H) SymbolicLocks() {}
 
+// SymbolicTxns makes the start of every Badger transaction (View, Update,
+// NewTransaction) of the code under test a scheduling point (txn:<file>:<line>)
+// under SymbolicSched; the replay build is instrumented like for SymbolicLocks.
+func (h *H) SymbolicTxns() {}
+
 // SymbolicMapOrder makes the starting position of the next n map range
 // statements executed by the code under test a symbolic choice (Go randomises
 // it). Natively the runtime picks; replays of such paths are retried.
@@ -422,8 +427,8 @@ func (h *H) CrashWindowStart() {
 	h.crashAt = int(h.vals["crashpos"])
 	h.windowOpen = true
 	verifhook.SetCallback(func(name string) {
-		if !h.windowOpen || strings.HasPrefix(name, "lock:") {
-			// lock:<file>:<line> points exist only in the instrumented replay build
+		if !h.windowOpen || strings.HasPrefix(name, "lock:") || strings.HasPrefix(name, "txn:") {
+			// lock:<file>:<line> and txn:<file>:<line> points exist only in the instrumented replay build
 			// (scheduling points); they are not crash boundaries of the engine
 			return
 		}
